@@ -43,16 +43,17 @@ def build_case(seed: int, stream: int) -> dict:
 def parse(text: str, route):
     """Parse through one of the three entry routes of DznJsonAst."""
     from dznpy.json_ast import DznJsonAst  # pylint: disable=import-outside-toplevel
+    verbose = common.verbose_for(text)
     if route == 'bytes':
-        return DznJsonAst(text.encode('utf-8')).process()
+        return DznJsonAst(text.encode('utf-8'), verbose).process()
     if route == 'file':
         with tempfile.NamedTemporaryFile('w', suffix='.json', delete=False) as fh:
             fh.write(text)
         try:
-            return DznJsonAst().load_file(fh.name).process()
+            return DznJsonAst(verbose=verbose).load_file(fh.name).process()
         finally:
             os.unlink(fh.name)
-    return DznJsonAst(text).process()
+    return DznJsonAst(text, verbose=verbose).process()
 
 
 def eval_case(case: dict) -> dict:
